@@ -248,7 +248,7 @@ func applyArrayOp(w *world, a *yjson.Array, m *val, s Step, descOut *string, pre
 			i = cs[s.A%len(cs)]
 		}
 	}
-	if (op == "setInt" || op == "setStr") && !kit.NoExclusions() {
+	if (op == "setInt" || op == "setStr") && excluding("F2") {
 		// F2: ArraySet on an element that was moved earlier inserts the new value
 		// at the element's original slot.
 		el := a.Get(i)
@@ -450,6 +450,7 @@ func evalArray(c Case, trace bool) verdict {
 // evalArrayModels is evalArray that also returns the final models (nil after a
 // failure or a discarded case).
 func evalArrayModels(c Case, trace bool) (verdict, *[2]*val) {
+	setAllowed(c)
 	w, err := newWorld(trace, func(r *yjson.Object) { r.SetNewArray("a") })
 	if err != nil {
 		return historyVerdict(w, err), nil
